@@ -164,8 +164,16 @@ impl HalfConnection {
             self.frame_queue.acknowledge_group(frame_ack.clone(), rtt_ms);
         }
 
+        // Ack frames are not numbered, and packet IDs come round every 2^20 packets: the packet
+        // window base of a long-delayed duplicate may lie inside the send window again. Frame IDs
+        // do not come round, so such a frame is recognized by its outdated frame window base.
+        let current = self.frame_queue.is_current_window_base(frame.frame_window_base_id);
+
         self.frame_queue.advance_transfer_window(frame.frame_window_base_id, rtt_ms);
-        self.packet_sender.acknowledge(frame.packet_window_base_id);
+
+        if current {
+            self.packet_sender.acknowledge(frame.packet_window_base_id);
+        }
     }
 
     pub fn step(&mut self) {
